@@ -164,7 +164,11 @@ class Interp:
             if isinstance(v, ReMatch):
                 return self.ctx.branch(v.cond)
             if isinstance(v, Opaque):
-                raise Unsupported("truth of opaque value")
+                # truthiness of an unmodelled result: an unknown that depends on that result only
+                import json as _json
+                from .engine import describe
+                key = "truth<%s|%s>" % (v.fn, _json.dumps([describe(a) for a in v.args], sort_keys=True, default=str))
+                return self.ctx.branch(z3.Bool(key))
             return True
         if isinstance(v, SplitView):
             return True
@@ -255,9 +259,11 @@ class Interp:
         if isinstance(a, Opaque) or isinstance(b, Opaque):
             if isinstance(a, Opaque) and isinstance(b, Opaque):
                 if a.fn != b.fn or len(a.args) != len(b.args):
-                    raise Unsupported("== between different opaque values")
+                    return False      # results of different unmodelled computations are not provably equal
                 return self.and_all([self.eq(x, y) for x, y in zip(a.args, b.args)])
             raise Unsupported("== between opaque and concrete value")
+        if isinstance(a, dict) != isinstance(b, dict) and not isinstance(a, Opaque) and not isinstance(b, Opaque):
+            return False            # a dict never equals a non-dict (no need to decide which optional keys are present)
         if isinstance(a, MDict):
             self.resolve_all(a)
         if isinstance(b, MDict):
@@ -427,12 +433,26 @@ class Interp:
         self.depth += 1
         if self.depth > 60:
             raise Unsupported("recursion depth")
+        gen = _is_generator(fref.node)
+        if gen:
+            # generator function: evaluated eagerly into the list of yielded values (exact for generator bodies
+            # without side effects the consumer can observe; the repository's generators only enumerate fields)
+            env.vars["$yielded"] = []
         try:
             self.exec_block(fref.node.body, env)
         except ReturnEx as r:
-            return r.value
+            return env.vars["$yielded"] if gen else r.value
         finally:
             self.depth -= 1
+        return env.vars["$yielded"] if gen else None
+
+    def ev_Yield(self, e, env):
+        scope = env
+        while scope is not None and "$yielded" not in scope.vars:
+            scope = scope.parent
+        if scope is None:
+            raise Unsupported("yield outside a generator function")
+        scope.vars["$yielded"].append(self.ev(e.value, env) if e.value is not None else None)
         return None
 
     def call_closure(self, c, args, kwargs=None):
@@ -1863,9 +1883,44 @@ class Interp:
         st = self.strip_structural(t, mode)
         if st is not None:
             return st
+        if mode == "strip":
+            # the left side alone may be decidable structurally; the right side then uses the general encoding
+            left = self.strip_structural(t, "lstrip")
+            if left is not None:
+                if isinstance(left, str):
+                    return left.rstrip(smt.WSCHARS)
+                t, mode = left.t, "rstrip"
+        if mode == "rstrip":
+            # everything up to the last literal non-blank character is kept verbatim; only what follows it can be trimmed
+            leaves = _concat_leaves(t)
+            cut = None
+            for i in range(len(leaves) - 1, -1, -1):
+                if z3.is_string_value(leaves[i]) and leaves[i].as_string().rstrip(smt.WSCHARS):
+                    cut = i
+                    break
+            if cut is not None:
+                txt = leaves[cut].as_string()
+                keep = txt.rstrip(smt.WSCHARS)
+                head = leaves[:cut] + [z3.StringVal(keep)]
+                tail = ([z3.StringVal(txt[len(keep):])] if txt[len(keep):] else []) + leaves[cut + 1:]
+                if not tail:
+                    r = z3.simplify(z3.Concat(*head) if len(head) > 1 else head[0])
+                    return r.as_string() if z3.is_string_value(r) else SStr(r)
+                tail_t = tail[0] if len(tail) == 1 else z3.Concat(*tail)
+                rt = self._strip_general(tail_t, "rstrip", allow_empty=True)
+                r = z3.simplify(z3.Concat(*(head + [strterm(rt)])))
+                return r.as_string() if z3.is_string_value(r) else SStr(r)
+        return self._strip_general(t, mode)
+
+    def _strip_general(self, t, mode, allow_empty=False):
+        memo = self.__dict__.setdefault("_strip_memo", {})
+        mkey = (t.sexpr(), mode)
+        if mkey in memo:
+            return memo[mkey]          # a function of its argument: same term, same result
         ws = z3.Union(*[z3.Re(c) for c in smt.WSCHARS])
         wss = z3.Star(ws)
         r = self.ctx.fresh("str", "strip")
+        memo[mkey] = SStr(r)
         a = self.ctx.fresh("str", "lws") if mode != "rstrip" else z3.StringVal("")
         b = self.ctx.fresh("str", "rws") if mode != "lstrip" else z3.StringVal("")
         self.ctx.assume(t == z3.Concat(a, r, b))
@@ -2068,6 +2123,23 @@ class Interp:
                 simp = self.replace_over_concat(strterm(cur), c, repl) if self.charsets is not None else None
                 cur = simp if simp is not None else SStr(smt.REPLACE_ALL(strterm(cur), z3.StringVal(c), z3.StringVal(repl)))
             return cur
+        if name == "os.path.basename" and len(args) == 1:
+            pth = args[0]
+            if isinstance(pth, str):
+                import os.path as _osp
+                return _osp.basename(pth)
+            # POSIX: the part after the last "/" (definition by decomposition: unique)
+            memo = self.__dict__.setdefault("_basename_memo", {})
+            key = strterm(pth).sexpr()
+            if key in memo:
+                return memo[key]       # a function: the same argument gives the same result term
+            head, tail = self.ctx.fresh("str", "dir"), self.ctx.fresh("str", "base")
+            memo[key] = SStr(tail)
+            self.ctx.assume(strterm(pth) == z3.Concat(head, tail))
+            self.ctx.assume(z3.Not(z3.Contains(tail, z3.StringVal("/"))))
+            self.ctx.assume(z3.Or(head == z3.StringVal(""), z3.SuffixOf(z3.StringVal("/"), head)))
+            self.ctx.assume(z3.InRe(tail, smt.PRINTABLE))
+            return SStr(tail)
         if name == "copy.deepcopy":
             return self.b_deepcopy(args[0])
         if name == "json.dumps":
@@ -2093,6 +2165,18 @@ def _fresh_parser_attr(cls, name):
     if v is None or isinstance(v, (bool, int, str, _re.Pattern)):
         return v
     return _MISSING
+
+
+def _is_generator(fn_node):
+    todo = list(fn_node.body)
+    while todo:
+        n = todo.pop()
+        if isinstance(n, (ast.Yield, ast.YieldFrom)):
+            return True
+        if isinstance(n, (ast.FunctionDef, ast.Lambda, ast.AsyncFunctionDef, ast.ClassDef)):
+            continue
+        todo.extend(ast.iter_child_nodes(n))
+    return False
 
 
 def _concat_leaves(t):
